@@ -4,6 +4,7 @@ import Dreye.Driver.Ops02
 import Dreye.Driver.Ops20
 import Dreye.Driver.Ops19
 import Dreye.Driver.Ops16
+import Dreye.Driver.Ops05
 namespace Dreye.Driver
-def allOps : List (String × Handler) := ops01 ++ ops02 ++ ops20 ++ ops19 ++ ops16
+def allOps : List (String × Handler) := ops01 ++ ops02 ++ ops20 ++ ops19 ++ ops16 ++ ops05
 end Dreye.Driver
